@@ -317,15 +317,15 @@ func c12(args []string) int {
 	}
 	nHist := run.N(10, 40)
 	type histRes struct {
-		ops   []luOp
-		names []int
-		live  map[int]luObs
-		fresh map[int]luObs
-		dump  map[int]bool
+		ops        []luOp
+		names      []int
+		live       map[int]luObs
+		fresh      map[int]luObs
+		dump       map[int]bool
 		dumpStatic map[int]int
 		liveStatic map[int]int
 		cfgDiff    map[int][]string
-		want  map[int]luObs // what the mirror of the model expects (used only to decide on a re-probe)
+		want       map[int]luObs // what the mirror of the model expects (used only to decide on a re-probe)
 	}
 	results := make([]*histRes, nHist)
 	var wgAll sync.WaitGroup
